@@ -310,6 +310,12 @@ impl Report {
     /// or a violation (replay file written, VIOLATION line printed).
     /// Returns true if it was a known finding.
     pub fn fail(&self, sub: &str, case: &Value, fail: &Fail, seed: u64) -> bool {
+        // A failure of the harness's own plumbing (cannot listen, cannot connect, a
+        // watchdog on the harness side) says nothing about the property: inconclusive.
+        if fail.sig.starts_with("harness-") {
+            self.mark_inconclusive(format!("{sub}: {}: {}", fail.sig, fail.msg));
+            return false;
+        }
         if self.is_known(&fail.sig) {
             self.excluded_known.fetch_add(1, Ordering::Relaxed);
             let mut g = self.lock();
